@@ -160,7 +160,10 @@ def run(chk):
                 return round(1e6 + rng.uniform(0, 50), 3)
             return 1e9 + rng.randint(0, 40) * 0.125
         per_inv = [[sess_value() for _ in range(rng.randint(1, 9))] for _ in range(ninv)]
-        spec = RunSpec("B0", invocations=ninv, warmup=warmup)
+        # every other session: an identifying column (the tag) holds a character at which str.splitlines - but not the data
+        # file's line structure - ends a line
+        odd_tag = rng.choice(["v\x0b1", "p\x0cq", "a\x1cb", "x\x1dy\x1ez", "n\x85l", "u\u2028v", "w\u2029"]) if i % 2 else None
+        spec = RunSpec("B0", invocations=ninv, warmup=warmup, extra={"tags": [odd_tag]} if odd_tag else None)
         raw = raw_config([spec])
         split_at = rng.randint(0, ninv)    # first session records `split_at` invocations, then is cut
 
@@ -182,7 +185,7 @@ def run(chk):
         reloaded = run_session(raw, script, data_file)       # everything reloaded
         w = warmup or 0
         expect = [v for inv in per_inv for v in inv[w:]]
-        case = dict(warmup=warmup, per_invocation=per_inv, first_session_recorded=split_at, values=family)
+        case = dict(warmup=warmup, per_invocation=per_inv, first_session_recorded=split_at, values=family, tag=odd_tag)
         for label, ses in (("live+reloaded", live), ("reloaded", reloaded)):
             st = ses.runs["B0"]["stats"]
             if not expect:
